@@ -37,6 +37,7 @@ J Op::to_json() const {
     if (fail_k) { j.set("fail_k", fail_k == K_ALL ? J("all") : J(fail_k)); j.set("fail_mode", fail_mode); if (fail_mode == 2) j.set("fail_set", fail_set); }
     if (lose) j.set("lose", lose);
     if (keep) j.set("keep", keep);
+    if (brk) j.set("brk", brk);
     if (task) j.set("task", task);
     if (!keys.empty()) {
         J items = J::arr();
@@ -62,7 +63,7 @@ Op Op::from_json(const J& j) {
     o.refree = (int)j.geti("refree");
     if (const J* k = j.get("fail_k")) o.fail_k = k->t == J::STR ? K_ALL : (int)k->i;
     o.fail_mode = (int)j.geti("fail_mode"); o.fail_set = (unsigned long long)j.geti("fail_set");
-    o.lose = (int)j.geti("lose"); o.keep = (int)j.geti("keep"); o.task = (int)j.geti("task");
+    o.lose = (int)j.geti("lose"); o.keep = (int)j.geti("keep"); o.brk = (int)j.geti("brk"); o.task = (int)j.geti("task");
     if (const J* it = j.get("items")) for (auto& e : it->a) {
         o.keys.push_back(e.gets("k"));
         const J* v = e.get("v");
@@ -97,6 +98,7 @@ std::string Op::brief() const {
     if (fail_k) { snprintf(buf, sizeof buf, " [alloc_fail k=%s mode=%d]", fail_k == K_ALL ? "all" : std::to_string(fail_k).c_str(), fail_mode); s += buf; }
     if (lose) s += " [then source_loss]";
     if (keep) s += " [object kept in use if the call fails]";
+    if (brk) { char b[64]; snprintf(b, sizeof b, " [manager table broken in place for this call, mask %d]", brk); s += b; }
     if (task) s += " @task" + std::to_string(task);
     return s;
 }
@@ -118,6 +120,7 @@ J Plan::to_json() const {
     cfg.set("managers", ms);
     J hp = J::obj(); hp.set("junk", junk); hp.set("reuse", reuse == REUSE_LIFO ? "lifo" : "never"); hp.set("redzone", redzone);
     cfg.set("heap", hp);
+    if (locale) cfg.set("locale", "C.UTF-8");
     j.set("config", cfg);
     J os = J::arr();
     for (auto& o : ops) os.push(o.to_json());
@@ -145,6 +148,7 @@ bool Plan::from_json(const J& j, Plan& p) {
             int kind = k == "sim" ? MK_SIM : k == "completed" ? MK_COMPLETED : k == "incomplete" ? MK_INCOMPLETE : MK_LIBC;
             p.mgrs.push_back(kind); p.mgr_mask.push_back((int)m.geti("mask"));
         }
+        p.locale = c->gets("locale") == "C.UTF-8" ? 1 : 0;
         if (const J* h = c->get("heap")) { p.junk = (unsigned long long)h->geti("junk"); p.reuse = h->gets("reuse") == "lifo" ? REUSE_LIFO : REUSE_NEVER; p.redzone = (int)h->geti("redzone", 32); }
     }
     if (const J* os = j.get("ops")) for (auto& o : os->a) { Op op = Op::from_json(o); if (op.kind < 0) return false; p.ops.push_back(op); }
